@@ -79,7 +79,8 @@ RefFileP(e) ==
 \* the smallest combination of named deviations under which the reference gets the file back exactly
 MinOf(st) == CHOOSE mi \in st : \A m2 \in st : mi <= m2
 RefFileExpl(e) == IF e.name \notin DOMAIN vwant THEN {}
-                  ELSE {di \in 1..Len(e.devs) : Gives(e.devs[di].v, vwant[e.name]) /\ e.devs[di].rawsame \in {"n/a", "same"}}
+                  ELSE {di \in 1..Len(e.devs) : /\ Gives(e.devs[di].v, vwant[e.name]) /\ e.devs[di].rawsame \in {"n/a", "same"}
+                                                  /\ e.fsize = vwant[e.name].len /\ e.locale = 0 /\ e.platform = 0}
 T_RefFile ==
   /\ Ev.ev = "RefFile" /\ vphase = "open" /\ vdir = 1
   /\ IF RefFileP(Ev) THEN TRUE
